@@ -59,6 +59,6 @@ def cases(tier, seed):
     shapes = [(None, None, None, b"alice"), (b"u", b"s", b"ctx", b""), (None, b"server", b"", b"c" * 300)]
     for si, s in enumerate(suites_for(tier, seed)):
         for k, (a, b, c, cred) in enumerate(shapes if tier == "thorough" else shapes[:2]):
-            out.append(dict(script=fake, suite=s, seed=seed * 10000 + si * 10 + k, mode="pattern+err",
+            out.append(dict(cross=["login_finish", "srv_login_finish", "srv_reg_start"], cross_limit=60, script=fake, suite=s, seed=seed * 10000 + si * 10 + k, mode="pattern+err",
                             params=dict(idu=a, ids=b, context=c, cred=cred)))
     return out
